@@ -205,6 +205,21 @@ pub fn run(ctx: &mut Ctx) {
                         fail = Some(("reported_obj_vs_model_data".into(), json!({"reported": res.obj_val, "recomputed": evk.p_obj})));
                     }
                 }
+                if problem::is_infeasible_status(res.status) {
+                    // C02/C03 oracles against the model data: NaN objectives, valid certificate
+                    if !(res.obj_val.is_nan() && res.obj_val_dual.is_nan()) {
+                        fail = Some(("infeasible_verdict_with_non_nan_objective".into(), json!({"obj_val": problem::fj(res.obj_val), "obj_val_dual": problem::fj(res.obj_val_dual), "status": status_name(res.status)})));
+                    }
+                    if let Some(fe) = res.final_event() {
+                        let almost = matches!(res.status, SolverStatus::AlmostPrimalInfeasible | SolverStatus::AlmostDualInfeasible);
+                        let is_p = matches!(res.status, SolverStatus::PrimalInfeasible | SolverStatus::AlmostPrimalInfeasible);
+                        let (ta, tr) = if almost { (st.reduced_tol_infeas_abs, st.reduced_tol_infeas_rel) } else { (st.tol_infeas_abs, st.tol_infeas_rel) };
+                        for (o, d) in judge_certificate(&evk, is_p, fe.κ, res.c, ta, tr) {
+                            fail = Some((format!("live_certificate_vs_model_data:{o}"), d));
+                        }
+                    }
+                    ctx.bump("infeasible_verdicts_in_histories");
+                }
                 if let Ok(fresh) = problem::run(&pm_problem, &st) {
                     ctx.eval(1);
                     let (vl, vf) = (verdict_class(res.status), verdict_class(fresh.status));
@@ -241,7 +256,8 @@ pub fn run(ctx: &mut Ctx) {
                     let cur: Vec<f64> = if target == 'q' { model.q.clone() } else { model.b.clone() };
                     match form {
                         0 | 1 => {
-                            let v: Vec<f64> = cur.iter().map(|x| x + rng.range(-0.3, 0.3)).collect();
+                            let big = if rng.bool(0.25) { 10.0 } else { 1.0 };
+                            let v: Vec<f64> = cur.iter().map(|x| x + big * rng.range(-0.3, 0.3)).collect();
                             result = catch(std::panic::AssertUnwindSafe(|| if target == 'q' { map_err!(solver.update_q(&v)) } else { map_err!(solver.update_b(&v)) })).unwrap_or_else(|e| Err(format!("PANIC {e}")));
                             if expect_ok && len > 0 {
                                 if target == 'q' {
